@@ -123,9 +123,17 @@ func coerce(a, b Val) (Val, Val) {
 		if tb, ok := b.(Term); ok && isNum(tb.Sort) {
 			return BVConst(ua.V.(*big.Int), tb.Sort.W, tb.Sort.Signed), b
 		}
+		if tb, ok := b.(Term); ok && tb.Sort.K == KFP {
+			f, _ := new(big.Float).SetInt(ua.V.(*big.Int)).Float64()
+			return fpConst(f, tb.Sort.W), b
+		}
 	case bok:
 		if ta, ok := a.(Term); ok && isNum(ta.Sort) {
 			return a, BVConst(ub.V.(*big.Int), ta.Sort.W, ta.Sort.Signed)
+		}
+		if ta, ok := a.(Term); ok && ta.Sort.K == KFP {
+			f, _ := new(big.Float).SetInt(ub.V.(*big.Int)).Float64()
+			return a, fpConst(f, ta.Sort.W)
 		}
 	}
 	return a, b
@@ -228,7 +236,7 @@ func (e *Env) ident(name string) (Val, types.Type) {
 					return &EStr{constant.StringVal(c.Val())}, nil
 				}
 			}
-			if g, ok := obj.(*types.Var); ok {
+			if g, ok := obj.(*types.Var); ok && e.r.Fn != nil {
 				// package-level variable: its address is symbolic; value lives in memory
 				if sg, ok := e.r.Fn.Pkg.Members[name].(*ssa.Global); ok {
 					addr := e.r.globalAddr(e.st, sg).(Term)
@@ -643,6 +651,40 @@ func (e *Env) call(n *ECall) (Val, types.Type) {
 			return True, nil
 		}
 		return False, nil
+	case "as":
+		// as(T, addr): addr viewed as *T (T a struct type of the package)
+		id, ok := n.Args[0].(*EIdent)
+		if !ok || e.pkg == nil {
+			e.fail("as(Type, addr)")
+		}
+		obj := e.pkg.Scope().Lookup(id.Name)
+		if obj == nil {
+			e.fail("as: unknown type %s", id.Name)
+		}
+		a := argT(1)
+		return Term{a.S, BV(64, false)}, types.NewPointer(obj.Type())
+	case "f64frombits", "f32frombits":
+		t := argT(0)
+		w := 64
+		if name == "f32frombits" {
+			w = 32
+		}
+		if t.Sort.K != KBV || t.Sort.W != w {
+			e.fail("%s needs a %d-bit value", name, w)
+		}
+		return fpFromBits(t), nil
+	case "isnan":
+		t := argT(0)
+		return Term{"(fp.isNaN " + t.S + ")", BoolSort()}, nil
+	case "memhash64":
+		a, b := argT(0), argT(1)
+		return Term{app("mh64", a, b), BV(64, false)}, nil
+	case "memhash32":
+		a, b := argT(0), argT(1)
+		return Term{app("mh32", a, b), BV(64, false)}, nil
+	case "memhashbytes":
+		a, b, c := argT(0), argT(1), argT(2)
+		return Term{app("mhbytes", e.st.memArr("M8"), a, b, c), BV(64, false)}, nil
 	case "mulovf":
 		a, b := coerce(arg(0), arg(1))
 		return MulOverflows(a.(Term), b.(Term)), nil
